@@ -28,7 +28,8 @@ MANIFEST = dict(
          'which verify_sign accepts only with the matching key, message and length, that key derivation from a mnemonic reaches no randomness or time source, and that mnemonic_new only '
          'returns what mnemonic_is_valid accepts.'
          ' Key derivation gives, after any history of other derivations in the same process (other salts, other mnemonics), what it gives in a fresh process; ids are opaque symbols on every comparison path (nothing the channel keeps is computed from an id).'
-         ' A bounded retry loop in mnemonic_new is walked for three draws and then as exhausted: what it returns after the last rejected draw must be valid too (raising is accepted).',
+         ' A bounded retry loop in mnemonic_new is walked for three draws and then as exhausted: what it returns after the last rejected draw must be valid too (raising is accepted).'
+         ' Packets of different sizes sent through one channel are each 64 + len(data) bytes and decrypt to their own plaintext.',
     note='trusted: interpreter, rope model, the algebraic models of nacl / x25519 / Cryptodome / hashlib (these libraries are not analysed).',
     design_ref='DESIGN.md section 4 C20')
 
